@@ -345,6 +345,13 @@ constexpr void change_to_default_attribute(
         detail::change_attribute(last_element->attribute_, {}, beh, wc);
         last_element->attribute_ = {};
     }
+    else
+    {
+        // The terminal's current attribute is unknown, so it cannot be
+        // assumed to be the default: reset it explicitly.
+        detail::default_attribute(beh, wc);
+        last_element = element{};
+    }
 }
 
 }  // namespace terminalpp::detail
